@@ -9,8 +9,9 @@ const (
 	// Whitespace or a comment between two tokens.
 	sanitizeSep = `(?:\s|/\*[^*]*\*+(?:[^/*][^*]*\*+)*/|--[^\n\r]*(?:\r\n|\n|\r|$))`
 
-	// A user name: a double-quoted identifier or a bare word.
-	sanitizeIdent = `(?:"(?:[^"\\\n]|\\.)*"|[^\s="]+)`
+	// A user name: a double-quoted identifier (the scanner also accepts, and
+	// drops, a bare word glued to its opening quote) or a bare word.
+	sanitizeIdent = `(?:[^\s="]*"(?:[^"\\\n]|\\.)*"|[^\s="]+)`
 
 	// The password: a quoted literal up to its closing quote (double quotes
 	// are a common mistake and are redacted too), or else a bare word.
